@@ -13,7 +13,8 @@ META = {
               "byte string of length 0..5 (quick) / 6-7 (thorough), exact-size objects, vs an RFC 8613 6.1 reference decoder; "
               "oscore_encode_option_value for Partial IV length 0..5, kid absent/0..3 bytes, kid context 0..2 bytes (lengths "
               "enumerated, bytes symbolic) vs reference compression + decode round trip; L3: oscore_generate_nonce for id length 0..7, "
-              "Partial IV length 1..5, arbitrary 13-byte common IV vs the RFC 8613 5.2 construction.",
+              "Partial IV length 1..5, arbitrary 13-byte common IV vs the RFC 8613 5.2 construction; L4: oscore_find_context over two contexts for "
+              "the listed (kid, ID Context, kid context) length triples with all identifier bytes symbolic.",
     "outside": "AES-CCM, HKDF, HMAC (GnuTLS); AAD/external_aad construction; inner/outer option split; coap_oscore_new_pdu_encrypted_lkd and "
                "coap_oscore_decrypt_pdu as wholes (hence: equality with an independent implementation's ciphertext, rejection of tampering, "
                "handler isolation are not decided); Appendix B.2 CBOR-wrapped kid context; group OSCORE",
@@ -54,4 +55,10 @@ def jobs():
             j2.group = None
             j2.desc = "coap_oscore_new_pdu_encrypted_lkd (cut after the nonce/sequence bookkeeping): Partial IV == sender sequence number for every value < 2^40"
             js.append(j2)
+    for kl, il, rl in ((1, 3, 3), (2, 4, 4), (0, 2, 2), (1, 3, 2), (1, -1, 0), (1, -1, 2), (1, 2, -1), (3, 8, 8)):
+        js.append(Job("L4-find-context@kid%d-idctx%s-rx%s" % (kl, il if il >= 0 else "none", rl if rl >= 0 else "none"), "C14/c14f.c", "c14_l4_find_context",
+                      ["oscore/oscore_context.c"], extra_src=EXTRA, defines=["KIDLEN=%d" % kl, "IDCLEN=%d" % il, "RXCLEN=%d" % rl, "ENV_LOG_QUIET"], unwind=12,
+                      group="L4-find-context", witness=(il == rl or (il < 0 and rl <= 0) or rl < 0),
+                      desc="oscore_find_context: context selected iff kid and the whole kid context match (two contexts, symbolic bytes)",
+                      bounds={"kid_len": kl, "id_context_len": il, "kid_context_len": rl, "contexts": 2}))
     return js
